@@ -90,10 +90,10 @@ def check_one(sp, opts, acc, tag=""):
     return check_block(sp, opts, acc, tag, single_bytes=False)
 
 
-SMALL = {R.T_DATA3D: lambda: gen.data3d(2, [gen.mk_track3d(2, (True, False), "ab")], links=[(0, 1)]),
-         R.T_EMG: lambda: gen.emg(2, [(1, gen.mk_emgsig(2, (False, True), "ab"))]),
-         R.T_FORCE3D: lambda: gen.force3d(2, [gen.mk_ftrack(2, (True, False), "ab")]),
-         R.T_PLATDATA: lambda: gen.platdata(2, [(1, gen.mk_plat(2, (True, False)))]),
+SMALL = {R.T_DATA3D: lambda: gen.data3d(3, [gen.mk_track3d(3, (True, False, True), "ab"), gen.mk_track3d(3, (True, True, True), "c", 2)], links=[(0, 1)]),
+         R.T_EMG: lambda: gen.emg(3, [(1, gen.mk_emgsig(3, (True, False, True), "ab")), (0, gen.mk_emgsig(3, (True, True, True), "c", 2))]),
+         R.T_FORCE3D: lambda: gen.force3d(3, [gen.mk_ftrack(3, (True, False, True), "ab"), gen.mk_ftrack(3, (True, True, True), "c", 2)]),
+         R.T_PLATDATA: lambda: gen.platdata(3, [(1, gen.mk_plat(3, (True, False, True))), (0, gen.mk_plat(3, (True, True, True), 2))]),
          R.T_PLATCAL: lambda: gen.platcal([(1, gen.mk_platinfo("ab"))]),
          R.T_OPT: lambda: gen.optical([gen.mk_chan(1, "l", "t", "n")]),
          R.T_EVENTS: lambda: gen.events([gen.mk_event("ab", 1, 2)]),
